@@ -22,7 +22,10 @@ class Universe:
         self.paths = [self._norm(p) for p in pathlist]          # list of tuples: (n, (c,k), (c,k)...)
         self.index = {p: i for i, p in enumerate(self.paths)}
         self.contents = contents                                  # list of {"hex","text"}, ascending by hash; id = index+1
-        self.by_bytes = {c["text"].encode(): i + 1 for i, c in enumerate(contents)}
+        # a content may be a SYMLINK ({"link": true, "text": target, "deref": bytes behind the target}): to the model it
+        # is one more version id; the real tree holds a symbolic link whose target string hashes to "hex"
+        self.by_bytes = {c["text"].encode(): i + 1 for i, c in enumerate(contents) if not c.get("link")}
+        self.by_link = {c["text"]: i + 1 for i, c in enumerate(contents) if c.get("link")}
         self.by_hex12 = {c["hex"][:12]: i + 1 for i, c in enumerate(contents)}
         self.by_hex = {c["hex"]: i + 1 for i, c in enumerate(contents)}
         self.editable = editable_idx
@@ -45,6 +48,9 @@ class Universe:
     def bytes_of(self, c):
         return self.contents[c - 1]["text"].encode()
 
+    def is_link(self, c):
+        return bool(self.contents[c - 1].get("link"))
+
 
 _W = {}
 
@@ -65,6 +71,11 @@ def _init_worker(copia, root, uni_blob, seed):
         os.makedirs(os.path.join(d, sub))
     _W.update(copia=copia, dir=d, A=os.path.join(d, "A"), B=os.path.join(d, "B"), home=os.path.join(d, "home"),
               uni=Universe(*uni_blob), rng=random.Random(seed * 1000 + wid))
+    for c in _W["uni"].contents:
+        if c.get("link"):
+            # the link targets "../<name>" resolve to the same file from either root
+            with open(os.path.normpath(os.path.join(_W["A"], c["text"])), "wb") as fh:
+                fh.write(c["deref"].encode())
     # bootstrap: learn this worker's pair ids for both argument orders.  The probe run has something to do (a file on
     # one side) so that it records its common state whatever a run with an empty plan does.  A Pool initializer that
     # raises makes the pool respawn workers for ever, so a failure is kept and raised by the first task instead.
@@ -112,9 +123,13 @@ def _materialise(s, blob, order, rng):
         for i, c in enumerate(tree):
             if c:
                 fp = os.path.join(side, uni.names[i])
+                t = rng.choice([1_000_000_000, 1_600_000_000 + rng.randrange(10**8), 1_700_000_000, 2_000_000_000])
+                if uni.is_link(c):
+                    os.symlink(uni.contents[c - 1]["text"], fp)
+                    os.utime(fp, (t, t), follow_symlinks=False)
+                    continue
                 with open(fp, "wb") as fh:
                     fh.write(uni.bytes_of(c))
-                t = rng.choice([1_000_000_000, 1_600_000_000 + rng.randrange(10**8), 1_700_000_000, 2_000_000_000])
                 os.utime(fp, (t, t))
     adir = os.path.join(_W["home"], ".copia", "archive")
     shutil.rmtree(adir, ignore_errors=True)
@@ -132,9 +147,13 @@ def _project_tree(root):
     for dp, dn, fn in os.walk(root):
         for f in fn:
             rel = os.path.relpath(os.path.join(dp, f), root)
-            data = open(os.path.join(dp, f), "rb").read()
             i = uni.name_index.get(rel)
-            c = uni.by_bytes.get(data)
+            if os.path.islink(os.path.join(dp, f)):
+                data = os.readlink(os.path.join(dp, f)).encode()
+                c = uni.by_link.get(data.decode("utf8", "replace"))
+            else:
+                data = open(os.path.join(dp, f), "rb").read()
+                c = uni.by_bytes.get(data)
             if i is None or c is None:
                 alien.append([rel, data[:40].decode("latin1")])
             else:
@@ -158,7 +177,7 @@ def _project_archive(order):
         hexd = bytes(fp["blake3"]).hex()
         i = uni.name_index.get(name)
         c = uni.by_hex.get(hexd)
-        if i is None or c is None or fp.get("ftype") != "File":
+        if i is None or c is None or fp.get("ftype") != ("Symlink" if uni.is_link(c) else "File"):
             alien.append([name, hexd[:12]])
         else:
             arr[i] = c
@@ -173,8 +192,8 @@ def _snapshot_bytes():
         for dp, dn, fn in os.walk(root):
             for f in sorted(fn):
                 p = os.path.join(dp, f)
-                st = os.stat(p)
-                out.append((p, st.st_size, st.st_mtime_ns, open(p, "rb").read()))
+                st = os.lstat(p)
+                out.append((p, st.st_size, st.st_mtime_ns, os.readlink(p).encode() if os.path.islink(p) else open(p, "rb").read()))
     return sorted(out)
 
 
@@ -310,7 +329,7 @@ def explore(copia, uni_blob, seed, root, max_states=None, alt_every=10, dry_ever
 
 
 FAULT_KINDS = ["stale_bak", "absent", "zero", "trunc", "garbage", "wrong_shape", "version0", "version2", "foreign_pair",
-               "other_order_copied", "only_bak", "only_tmp"]
+               "other_order_copied", "only_bak", "only_tmp", "no_version", "version_renamed", "version_string", "no_pair"]
 
 
 def fault_state(job):
@@ -337,6 +356,19 @@ def fault_state(job):
     elif kind in ("version0", "version2"):
         d = json.loads(raw)
         d["format_version"] = 0 if kind == "version0" else 2
+        open(path, "wb").write(json.dumps(d, indent=2).encode())
+    elif kind in ("no_version", "version_renamed", "version_string", "no_pair"):
+        # "of another format version" / "belongs to a different pair" also covers an archive that does not SAY which version
+        # or pair it is: well-formed JSON, entries intact, the identifying member missing, renamed or of another type
+        d = json.loads(raw)
+        if kind == "no_pair":
+            del d["root_pair_hash"]
+        else:
+            v = d.pop("format_version")
+            if kind == "version_renamed":
+                d["schema"] = 2
+            elif kind == "version_string":
+                d["format_version"] = "1.0" if v == 1 else str(v)
         open(path, "wb").write(json.dumps(d, indent=2).encode())
     elif kind == "foreign_pair":
         d = json.loads(raw)
